@@ -3,6 +3,7 @@
 
 mod clock;
 mod gen;
+mod packetdrv;
 mod run;
 mod scenario;
 mod seqwalk;
@@ -131,12 +132,51 @@ fn cmd_state(args: &[String]) -> i32 {
     0
 }
 
+fn cmd_packet(args: &[String]) -> i32 {
+    let seed: u64 = arg(args, "--seed").and_then(|s| s.parse().ok()).unwrap_or(1);
+    let n: usize = arg(args, "--n").and_then(|s| s.parse().ok()).unwrap_or(10);
+    let out = arg(args, "--out").unwrap_or("/dev/stdout");
+    let family = arg(args, "--family").unwrap_or("fields");
+    std::panic::set_hook(Box::new(|_| {}));
+    let mut f = std::io::BufWriter::new(std::fs::File::create(out).expect("create out"));
+    let mut stats = Vec::new();
+    match family {
+        "fields" | "fields16" => {
+            let (ev, panics) = packetdrv::run_fields(seed, n, family == "fields16", &mut f);
+            for (ty, _, fields) in packetdrv::TYPES {
+                for (fl, w, _) in *fields {
+                    stats.push(json!({"id":format!("{ty}.{fl}"),"cell":ty,"shape":format!("{fl}/{w}"),"delivered":{"genuine":1},"events":ev,"panicked":panics>0}));
+                }
+            }
+        }
+        "ck" => {
+            let ev = packetdrv::run_checksums(seed, n, &mut f);
+            for i in 0..ev.saturating_sub(1) {
+                stats.push(json!({"id":format!("ck-{i}"),"cell":"ck","shape":format!("{i}"),"delivered":{"genuine":1}}));
+            }
+        }
+        "paris" | "paris_all" => {
+            let ev = packetdrv::run_paris(seed, family == "paris_all", &mut f);
+            for i in 0..(ev.saturating_sub(1)).min(5000) {
+                stats.push(json!({"id":format!("paris-{i}"),"cell":"paris","shape":format!("{i}"),"delivered":{"genuine":1}}));
+            }
+        }
+        _ => return 2,
+    }
+    f.flush().unwrap();
+    if let Some(path) = arg(args, "--stats") {
+        std::fs::write(path, serde_json::to_string(&stats).unwrap()).unwrap();
+    }
+    0
+}
+
 fn main() {
     let args: Vec<String> = std::env::args().collect();
     let code = match args.get(1).map(String::as_str) {
         Some("sim") => cmd_sim(&args[2..]),
         Some("seqwalk") => cmd_seqwalk(&args[2..]),
         Some("state") => cmd_state(&args[2..]),
+        Some("packet") => cmd_packet(&args[2..]),
         _ => {
             eprintln!("usage: vh sim --family F --seed S --n N --out FILE [--stats FILE]");
             2
